@@ -234,6 +234,9 @@ def body(c, stats: Stats):
         changed = r2[0] == 'ok' and r2[1] != ('pat', ep)
         sample.update(var=c['x'], plug=gens.show_sugared(c['g']))
     elif op == 'instantiate':
+        if not gens.admissible_delta(ep, {k: gens.expand_sugared(v, defs) for k, v in c['delta']}):
+            stats.excluded['instantiate-inadmissible-delta'] += 1
+            return
         d = {k: gens.build_repo(v) for k, v in c['delta']}
         r1 = attempt(lambda: p.instantiate(d)); r2 = attempt(lambda: e.instantiate(d))
         changed = r2[0] == 'ok' and r2[1] != ('pat', ep)
